@@ -1,1 +1,55 @@
-fn main() {}
+//! Conformance driver for actix-codec: LinesCodec (C15), Framed write half (C14), Framed read half (C13).
+//!
+//! `vcodec lines --vectors F --trace T [--random N --seed S]`      TLC vectors of Lines.tla on the real LinesCodec
+//! `vcodec write --schedules F --trace T [--random N --len L --seed S]`   FramedWrite.tla edge paths on the real Framed sink
+//! `vcodec read  --schedules F --trace T`                          FramedRead.tla edge paths on the real Framed stream
+//! `vcodec readlong --random N --seed S --trace T`                 long random streams against the cross-checked reference
+//!
+//! Every step is recorded as one ndjson record of *observed* results; the last stdout line is the JSON summary.
+
+mod lines;
+mod rd;
+mod wr;
+
+pub struct Rng(pub u64);
+impl Rng {
+    pub fn seeded(seed: u64, salt: u64) -> Rng {
+        Rng(seed.wrapping_mul(2654435761).wrapping_add(salt * 7919 + 1) | 1)
+    }
+    pub fn next(&mut self) -> u64 {
+        self.0 ^= self.0 << 13;
+        self.0 ^= self.0 >> 7;
+        self.0 ^= self.0 << 17;
+        self.0
+    }
+    pub fn below(&mut self, n: usize) -> usize {
+        (self.next() % n as u64) as usize
+    }
+    pub fn range(&mut self, lo: usize, hi: usize) -> usize {
+        lo + self.below(hi - lo + 1)
+    }
+}
+
+pub fn bytes_of(v: &vcore::Value) -> Vec<u8> {
+    v.as_array()
+        .unwrap_or_else(|| panic!("expected byte array, got {v}"))
+        .iter()
+        .map(|b| b.as_u64().unwrap() as u8)
+        .collect()
+}
+
+pub fn uarg(name: &str, default: usize) -> usize {
+    vcore::arg(name).map(|s| s.parse().unwrap()).unwrap_or(default)
+}
+
+fn main() {
+    vcore::quiet_panics();
+    let mode = std::env::args().nth(1).expect("mode");
+    match mode.as_str() {
+        "lines" => lines::main(),
+        "write" => wr::main(),
+        "read" => rd::main(false),
+        "readlong" => rd::main(true),
+        other => panic!("unknown mode {other}"),
+    }
+}
